@@ -3,6 +3,7 @@
 open Zutil
 open PropagationModel
 open Model
+open Bodies
 
 let z = z_of_int
 let iz = int_of_z
@@ -25,6 +26,8 @@ let spec_items st base multi_crew =
   let dups = if multi_crew && k <> 'c' && k <> 'g' && k <> 'h' then Stdlib.List.filter_map (fun i -> if i mod 4 = 0 then Some (base + 3 * i) else None) (Stdlib.List.init n (fun i -> i)) else [] in
   let all = Stdlib.List.sort compare (plain @ dups) in
   match k with
+  | 'f' -> let l = plain @ dups in                 (* DataTable: the two rows added last are extracted (detached) again *)
+    let keep = max 0 (Stdlib.List.length l - 2) in (Stdlib.List.filteri (fun i _ -> i < keep) l, n)
   | 'e' | 'c' -> ([], n)
   | 'v' -> (Stdlib.List.filter_map (fun i -> if i mod 2 = 1 then Some (base + 3 * i) else None) (Stdlib.List.init n (fun i -> i)), n)
   | _ -> (all, n)
@@ -42,6 +45,7 @@ let kind_of = function
   | "HashSet" | "HashMap" -> Crew (KHash, false, None)
   | "HashMulti" -> Crew (KMulti, true, None)
   | "TreeSet" | "TreeMap" -> Crew (KTree, false, None)
+  | "DataTable" -> Crew (KTable, true, None)
   | "vec" -> Arr (0, true)
   | "set" -> Crew (KTree, false, Some WSet) | "mset" -> Crew (KTree, true, Some WSet)
   | "map" -> Crew (KTree, false, Some WMap) | "mmap" -> Crew (KTree, true, Some WMap)
@@ -56,7 +60,65 @@ let reset (w : world) = { next = w.next; trace = [] }
 let zl = Stdlib.List.map z
 let il = Stdlib.List.map iz
 
-let run_crew k multi wko tr op ss ts sid tid aid post =
+
+(* ---- structured bodies (Bodies.v): built from the structure token the harness validated against the real object *)
+let split_on c s = if s = "" then [] else String.split_on_char c s
+let rec take n l = if n <= 0 then ([], l) else match l with [] -> ([], []) | x :: r -> let (a, b) = take (n - 1) r in (x :: a, b)
+let fresh_block id (w : world) = let (b, w') = alloc (z id) w in (b, w')
+let parse_struct (tok : string) (id : int) (items : int list) (w : world) : sbody option * world =
+  if tok = "*" || tok = "" then (None, w) else
+  let body = String.sub tok 1 (String.length tok - 1) in
+  match tok.[0] with
+  | 'H' ->
+    let counts = Stdlib.List.map int_of_string (split_on '.' body) in
+    let (gens, _, w) = Stdlib.List.fold_left (fun (acc, rest, w) n ->
+        let (its, rest') = take n rest in let (b, w') = fresh_block id w in
+        (acc @ [{ gblock = b; gitems = zl its }], rest', w')) ([], items, w) counts in
+    (Some (SHash gens), w)
+  | 'T' ->
+    let p = body.[0] = '1' in
+    let nodes = split_on ',' (String.sub body 2 (String.length body - 2)) in
+    let (pb, w) = if p then let (b, w') = fresh_block id w in (Some (b, z 0), w') else (None, w) in
+    let (ns, _, w) = Stdlib.List.fold_left (fun (acc, rest, w) tk ->
+        match split_on '.' tk with
+        | [d; c] -> let (its, rest') = take (int_of_string c) rest in let (b, w') = fresh_block id w in
+          (acc @ [{ nblock = b; nitems = zl its; ndepth = nat_of_int (int_of_string d) }], rest', w')
+        | _ -> failwith "tree token") ([], items, w) nodes in
+    (Some (STree (pb, ns)), w)
+  | 'M' ->
+    (match split_on ':' body with
+     | [g; kv] ->
+       (match split_on '.' kv with
+        | [_; vl] ->
+          let (bk, w) = Stdlib.List.fold_left (fun (acc, w) _ -> let (b, w') = fresh_block id w in (acc @ [b], w')) ([], w) (Stdlib.List.init (int_of_string g) (fun i -> i)) in
+          let sorted = Stdlib.List.sort compare items in
+          let rec group = function [] -> [] | x :: r -> let (same, rest) = Stdlib.List.partition (fun y -> y = x) r in (x, 1 + Stdlib.List.length same) :: group rest in
+          let (keys, w) = Stdlib.List.fold_left (fun (acc, w) (kv, n) -> let (b, w') = fresh_block id w in
+                                        (acc @ [{ mk = z kv; marr = Some b; mvals = zl (Stdlib.List.init n (fun i -> kv + 7)) }], w')) ([], w) (group sorted) in
+          let vls = Stdlib.List.init (int_of_string vl) (fun i -> { mk = z (-1 - i); marr = None; mvals = [] }) in
+          (Some (SMulti (bk, keys @ vls)), w)
+        | _ -> failwith "multi token")
+     | _ -> failwith "multi token")
+  | 'D' ->
+    (match split_on '.' body with
+     | [_; fr] ->
+       let (ra, w) = if items = [] then (None, w) else let (b, w') = fresh_block id w in (Some b, w') in
+       let (rows, w) = Stdlib.List.fold_left (fun (acc, w) v -> let (b, w') = fresh_block id w in (acc @ [{ rblock = b; rval = z v }], w')) ([], w) items in
+       let (free, w) = Stdlib.List.fold_left (fun (acc, w) _ -> let (b, w') = fresh_block id w in (acc @ [b], w')) ([], w) (Stdlib.List.init (int_of_string fr) (fun i -> i)) in
+       (Some (STable (ra, rows, free)), w)
+     | _ -> failwith "table token")
+  | _ -> (None, w)
+
+let show_struct = function
+  | SHash gens -> "H" ^ String.concat "." (Stdlib.List.map (fun g -> string_of_int (Stdlib.List.length g.gitems)) gens)
+  | STree (p, ns) -> "T" ^ (if p = None then "0" else "1") ^ ":" ^
+                     String.concat "," (Stdlib.List.map (fun n -> string_of_int (int_of_nat n.ndepth) ^ "." ^ string_of_int (Stdlib.List.length n.nitems)) ns)
+  | SMulti (bk, ks) -> Printf.sprintf "M%d:%d.%d" (Stdlib.List.length bk) (Stdlib.List.length ks)
+                         (Stdlib.List.length (Stdlib.List.filter (fun k -> k.mvals = []) ks))
+  | STable (_, rows, free) -> Printf.sprintf "D%d.%d" (Stdlib.List.length rows) (Stdlib.List.length free)
+let show_sc = function SOwned (_, b) -> show_struct b | SMovedFrom -> "null"
+
+let run_crew k multi wko tr op ss ts sid tid aid post sst tst =
   let w0 = { next = z 0; trace = [] } in
   let mk id st base w =
     let (c, w) = get (cc_new k (z id) w) in
@@ -88,14 +150,36 @@ let run_crew k multi wko tr op ss ts sid tid aid post =
                  else let ((t', s'), w') = get (cc_move_assign k t s w) in (t', s', w')
     | "swap" -> if wrap then let ((t', s'), w') = get (w_swap trv t s w) in (t', s', w')
                 else let (t', s') = cc_swap t s in (t', s', w)
+    | "merge" -> if items_of s = [] then (t, s, w)               (* MergeTo: `if (count == 0) return;` *)
+                 else let (s', t') = cc_swap s t in (t', s', w)   (* into an empty set, equal managers: Swap(dst) (c7fda03) *)
     | _ -> failwith "op" in
   let none = (op = "none") in
   let iscopy = String.length op >= 4 && String.sub op 0 4 = "copy" in
-  let line1 = Printf.sprintf "ok T=%s S=%s tc=%s sc=%s mv=%d cp=%d"
+  (* structured view: the graph of S and T before the operation comes from the (validated) structure tokens *)
+  let wS = { next = z 1000000; trace = [] } in
+  let crew_of c = match c with Owned (cr, _, _) -> cr | MovedFrom -> { cblocks = []; cmgr = z 0 } in
+  let (bS, wS) = parse_struct sst sid (il (items_of s)) wS in
+  let (bT, wS) = parse_struct tst tid (il (items_of t)) wS in
+  let stS = match bS with Some b -> Some (SOwned (crew_of s, b)) | None -> None in
+  let stT = match bT with Some b -> Some (SOwned (crew_of t, b)) | None -> None in
+  let shw = function Some x -> show_sc x | None -> "*" in
+  let moved = (match s1 with MovedFrom -> true | _ -> false) in
+  let ismovea = (op = "movea" || op = "moveca") in
+  let ew = ismovea && not moved in
+  let ts_str =
+    if self || none then "-" else if ew then "?" else
+    if iscopy then (match stS with Some x -> (match s_copy k x (z 0) wS with Ok (c, _) -> show_sc c | _ -> "abort") | None -> "*")
+    else if op = "merge" && items_of s = [] then shw stT
+    else shw stS in                                   (* movec / steal / swap: the target holds the source's former graph *)
+  let ss_str =
+    if moved then "null" else if ew then "?" else
+    if op = "swap" || (op = "merge" && items_of s <> []) then shw stT else shw stS in
+  let line1 = Printf.sprintf "ok T=%s S=%s tc=%s sc=%s mv=%d cp=%d ts=%s ss=%s"
       (if self || none then "-" else ids (mgr_of t1)) (ids (mgr_of s1))
       (if self || none then "[]" else show (il (items_of t1))) (show (il (items_of s1)))
-      (if has_event is_move w1 && not iscopy then 1 else 0) (if has_event is_copy w1 then 1 else 0) in
+      (if has_event is_move w1 && not iscopy then 1 else 0) (if has_event is_copy w1 then 1 else 0) ts_str ss_str in
   (* post operation on the source with a fresh F *)
+  let s1 = if op = "merge" then MovedFrom else s1 in         (* the harness lets the source's crew die after a merge *)
   let useF = Stdlib.List.mem post ["swapf"; "fswap"; "massign"; "cassign"] in
   let (f, w2) = get (cc_new k (z aid) w1) in
   let (f, w2) = if useF then Stdlib.List.fold_left (fun (c, w) i -> get (cc_insert k multi c (z (300000 + 3 * i)) w)) (f, w2) [0; 1; 2; 3; 4] else (f, w2) in
@@ -113,11 +197,20 @@ let run_crew k multi wko tr op ss ts sid tid aid post =
                    else let (s', w') = get (cc_copy_assign k s1 f w2) in (s', f, w')
     | "reuse" -> let (s', w') = get (cc_insert k multi s1 (z 400001) w2) in
                  let (s'', w'') = get (cc_insert k multi s' (z 400004) w') in (s'', f, w'')
+    | "fmove" -> if wrap then let ((f', s'), w') = get (w_move_assign wk trv f s1 w2) in (s', f', w')
+                 else let ((f', s'), w') = get (cc_move_assign k f s1 w2) in (s', f', w')
+    | "ccopy" -> let (x, w') = get (cc_copy_ctor k s1 w2) in (s1, x, w')
+    | "find" -> let (b, w') = if k = KTable then (Stdlib.List.mem 1003 (il (items_of s1)), w2)   (* harness: linear scan over GetCount() rows, no crew *)
+                              else get (cc_find s1 (z 1003) w2) in
+                if b then let (f', w'') = get (cc_insert k multi f (z 1) w') in (s1, f', w'') else (s1, f, w')
+    | "ilist" -> if wrap then let (s', w') = get (w_assign_ilist wk multi s1 [z 400001; z 400004] w2) in (s', f, w') else (s1, f, w2)
     | _ -> failwith "post" in
+  let useF = useF || Stdlib.List.mem post ["fmove"; "ccopy"; "find"] in
   Printf.printf "%s S2=%s s2c=%s F=%s fc=%s E=0\n" line1 (ids (mgr_of s2)) (show (il (items_of s2)))
     (if useF then ids (mgr_of f2) else "-") (if useF then show (il (items_of f2)) else "[]")
 
 let run_arr ic isvec tr op ss ts sid tid aid post =
+  let selfnone = (op = "none" || (String.length op >= 4 && String.sub op 0 4 = "self")) in
   let w0 = { next = z 0; trace = [] } in
   let icn = nat_of_int ic in
   let mk id st base w =
@@ -146,10 +239,10 @@ let run_arr ic isvec tr op ss ts sid tid aid post =
     | _ -> failwith "op" in
   let none = (op = "none") in
   let iscopy = String.length op >= 4 && String.sub op 0 4 = "copy" in
-  let line1 = Printf.sprintf "ok T=%s S=%s tc=%s sc=%s mv=%d cp=%d"
+  let line1 = Printf.sprintf "ok T=%s S=%s tc=%s sc=%s mv=%d cp=%d ts=%s ss=A"
       (if self || none then "-" else string_of_int (iz t1.amgr)) (string_of_int (iz s1.amgr))
       (if self || none then "[]" else show (il t1.aitems)) (show (il s1.aitems))
-      (if has_event is_move w1 && not iscopy then 1 else 0) (if has_event is_copy w1 then 1 else 0) in
+      (if has_event is_move w1 && not iscopy then 1 else 0) (if has_event is_copy w1 then 1 else 0) (if selfnone then "-" else "A") in
   let useF = Stdlib.List.mem post ["swapf"; "fswap"; "massign"; "cassign"] in
   let f = arr_new (z aid) in
   let (f, w2) = if useF then Stdlib.List.fold_left (fun (c, w) i -> arr_insert icn c (z (300000 + 3 * i)) w) (f, w1) [0; 1; 2; 3; 4] else (f, w1) in
@@ -167,18 +260,25 @@ let run_arr ic isvec tr op ss ts sid tid aid post =
                    else let (s', w') = get (arr_copy_assign assign icn s1 f w2) in (s', f, w')
     | "reuse" -> let (s', w') = arr_insert icn s1 (z 400001) w2 in
                  let (s'', w'') = arr_insert icn s' (z 400004) w' in (s'', f, w'')
+    | "fmove" -> if isvec then let ((f', s'), w') = get (v_move_assign trv icn f s1 w2) in (s', f', w')
+                 else let ((f', s'), w') = get (arr_move_assign assign f s1 w2) in (s', f', w')
+    | "ccopy" -> let (x, w') = arr_copy_ctor icn s1 w2 in (s1, x, w')
+    | "find" -> if Stdlib.List.mem 1003 (il s1.aitems) then let (f', w') = arr_insert icn f (z 1) w2 in (s1, f', w') else (s1, f, w2)
+    | "ilist" -> (s1, f, w2)
     | _ -> failwith "post" in
+  let useF = useF || Stdlib.List.mem post ["fmove"; "ccopy"; "find"] in
   Printf.printf "%s S2=%d s2c=%s F=%s fc=%s E=0\n" line1 (iz s2.amgr) (show (il s2.aitems))
     (if useF then string_of_int (iz f2.amgr) else "-") (if useF then show (il f2.aitems) else "[]")
 
 let () = iter_lines (fun line ->
   match words line with
-  | [trs; kind; op; ss; ts; sid; tid; aid; post] ->
+  | trs :: kind :: op :: ss :: ts :: sid :: tid :: aid :: post :: rest ->
+    let (sst, tst) = (match rest with [a; b] -> (a, b) | _ -> ("*", "*")) in
     (try
       let tr = traits_of trs in
       let (sid, tid, aid) = (int_of_string sid, int_of_string tid, int_of_string aid) in
       (match kind_of kind with
-       | Crew (k, multi, wko) -> run_crew k multi wko tr op ss ts sid tid aid post
+       | Crew (k, multi, wko) -> run_crew k multi wko tr op ss ts sid tid aid post sst tst
        | Arr (ic, isvec) -> run_arr ic isvec tr op ss ts sid tid aid post)
     with Abort -> print_endline "abort" | Wrong -> print_endline "ok E=1" | Failure m -> print_endline ("model-error:" ^ m))
   | _ -> print_endline "?")
